@@ -310,6 +310,22 @@ class Eval:
                 return {(("opq", nm), 0)}
             if nm == "scratch":
                 return {UNK}
+            # a small private helper that is handed the base pointer (`sub_through(f, &a)` = the sub of `a` as `f` denotes
+            # it): its body in its place, so that a sign test that moved into the helper is still seen - and one that is
+            # missing there is still missed
+            if (c.local or getattr(c, "res_local", False)) and self.depth < 2 and any(mir.strip_refs(strip(x)) == self.base for x in a):
+                hs = [h for h in self.prog.resolve(c) if "{closure" not in h.npath]
+                if len(hs) == 1 and hs[0].terms.ret is not None and hs[0] is not self.fn and len(hs[0].blocks) <= 12 and \
+                        not any(cs_.callee.name == hs[0].name for cs_ in hs[0].terms.calls):
+                    from . import canon as _canon
+                    body = _canon.subst(hs[0].terms.ret, {i_ + 1: x for i_, x in enumerate(a)})
+                    self.depth += 1
+                    try:
+                        r_ = self.av(body, nu)
+                    finally:
+                        self.depth -= 1
+                    if UNK not in r_:
+                        return r_
             return {(("opq", nm), 0)}
         if k == "param" or k == "upvar":
             return {(("opq", show(t)), 0)}
